@@ -352,7 +352,7 @@ class View:
             'id': d['id'], 'label': d['label'], 'language': d['language'], 'email': d['email'],
             'license': d['license'], 'version': d['version'], 'url': d.get('url') or None,
             'citation': d.get('citation') or None, 'logo': d.get('logo') or None,
-            'meta': d.get('meta') or None, 'requires': req,
+            'meta': d.get('meta') or None, 'modified': False, 'requires': req,
             'extends': self.db.lex[spec].base,
             'extensions': Bag(self.db.extensions_of(spec, transitive=False)),
             'all_extensions': Bag(self.db.extensions_of(spec, transitive=True)),
